@@ -124,7 +124,7 @@ func (c11) Build(tier string, seed uint64) []any {
 	// large
 	nBig := 6
 	if th {
-		nBig = 60
+		nBig = 400
 	}
 	for i := 0; i < nBig; i++ {
 		r := gen.Sub(seed, "C11", "big", i)
